@@ -52,9 +52,10 @@ func vhBuildTree(g *vhDigits, depth, maxw int, label string) Stack {
 		case 2:
 			el = Cond("k"+name, Eq, "v"+name)
 		case 3:
-			el = vhWrapStack(vhBuildTree(g, depth-1, maxw, name), g.next(2))
+			el = vhWrapStack(vhBuildTree(g, depth-1, maxw, name), g.next(4))
 		case 4:
-			el = Cond("k"+name, Ne, vhBuildTree(g, depth-1, maxw, name))
+			inner := vhWrapStack(vhBuildTree(g, depth-1, maxw, name), g.next(4))
+			el = vhWrapCond(Cond("k"+name, Ne, inner), []int{0, 0, 1, 3}[g.next(4)])
 		}
 		*s.stack = append(*s.stack, el)
 	}
